@@ -370,7 +370,7 @@ class PluginEnv:
         def udb(b):
             if b[0] in ('import_error', 'import_mnf'):
                 return 'absent'      # the import raises an ImportError: "module not found" for parseCustom
-            return {'echo': 'echo', 'none': 'none'}.get(b[0]) or ('raises ' + tt(b[1]) if b[0] in ('raises', 'raises_import') else
+            return {'echo': 'echo', 'none': 'none', 'release_none': 'none'}.get(b[0]) or ('raises ' + tt(b[1]) if b[0] in ('raises', 'raises_import', 'release_raises') else
                                                                   'importraises ' + tt(b[1]) if b[0] == 'import_raises' else 'text ' + tt(b[1]))
 
         def srcb(b):
@@ -500,6 +500,11 @@ def fixture_source(pkg, beh):
             body = ('raise Exception(%r)' % beh[1]) if beh[1] else 'raise NotImplementedError()'
         elif beh[0] == 'raises_import':
             body = 'raise ImportError(%r)' % beh[1]
+        elif beh[0] == 'release_raises':
+            # a parser that is done with its view of the payload (`with data:` / data.release()) before it fails
+            body = 'data.release()\n    raise Exception(%r)' % beh[1]
+        elif beh[0] == 'release_none':
+            body = 'data.release()\n    return None'
         elif beh[0] == 'none':
             body = 'return None'
         else:
